@@ -21,6 +21,35 @@
 -/
 import Batchie.Lemmas.Rand
 
+/-!
+## CLAUSE MAP (property text of C18 → theorems)
+
+| clause of the statement | stated by |
+|---|---|
+| "every randomised operation … produces identical output when repeated with identical inputs and an identically seeded generator" (semantic core) | `C18_noninterference` (any G-only program, any way `out` of computing the output from the values drawn); per operation `C18_noninterference_partial` |
+| … plate generators | `C18_generatePlates` (pairwise / plate-permutation / sample-segregating, wrapped) |
+| … smoothers | `C18_smoothPlates` (all six, incl. the ensemble) |
+| … the initial cover | `C18_sparseCover` (value-dependent number of draws) |
+| … the hold-out split | `C18_randomHoldout`, `C18_plateBalancedHoldout` |
+| … the random scorer, DBAL triple sub-sampling | `C18_scorer` (`ScorerKind.random / .dbal / .size`), through `score_chunk`: `C18_scoreChunk` |
+| … policy filtering | `C18_kPerSamplePolicy`, `C18_selectNextPlate` |
+| … model training | `C18_sampleMvn`, `C18_gibbsSweep` (prior and posterior branches, all sampler options), `C18_sampleMCMC`, `C18_sample_installs_generator` (the generator is the one of THIS call; negative: `C18_conditional_install_interferes`) |
+| … each command-line step given --seed | `C18_cliPrepareRetrospective`, `C18_cliCalculateScores`, `C18_cliSelectNextPlate`, `C18_cliTrainModel`, `C18_cliEvaluateModel`, `C18_cli_seed` |
+| "for EVERY operation" assembled | `C18_claimed_onlyG`, `C18_noninterference_partial`; exclusions exact: `C18_excluded_exactly`; the excluded ones really interfere: `C18_vi_model_interferes` (known finding), `C18_no_rng_fallback_depends_on_entropy` (outside "the given generator") |
+| "neither depends on … the process-global random state" | `C18_noninterference` (∀ Γ Γ' Ω Ω': equal outputs, equal traces, equal final G) |
+| "… nor perturbs the process-global random state" | `C18_noninterference` (`world.γ = γ`, `world.ω = ω`), `C18_noninterference_partial` (every event tagged G) |
+| quantifier "any prior state of the global generator, any interleaving of unrelated global draws between two runs" | the ∀ Γ Γ' Ω Ω' of the above; for whole HISTORIES of calls in one process (other operations, other seeds, excluded operations in between): `C18_history_independent`; the trace as a function of the arguments: `C18_trace_function_of_arguments` |
+| "all inputs and seeds" | ∀ `a : Args` (every input shape the trace depends on), ∀ `g` (the stream of ANY seed), ∀ `out` (uninterpreted function of inputs and drawn values) |
+
+harness-only (cannot be stated in this functional model):
+* that the model's source tags ARE the code's (trace correspondence, all three sources instrumented);
+* numpy's generator laws ("an identically seeded generator delivers identical values", SeedSequence.spawn);
+* that an operation's output is a function of its inputs and of the values drawn and of nothing else -- no clock, no
+  per-process string-hash salt, no identity-keyed cache, no per-object memory (two-run, cross-process, object-reuse and
+  object-lifetime oracles);
+* torch's global generator (VI model, known finding).
+-/
+
 namespace Batchie.Props.C18
 open Batchie.Rand
 
@@ -171,6 +200,62 @@ theorem C18_no_rng_fallback_depends_on_entropy :
     ∃ (a : Args) (g γ ω ω' : Stream),
       (run (prog .sampleMvnNoRng a) ⟨g, γ, ω⟩).out ≠ (run (prog .sampleMvnNoRng a) ⟨g, γ, ω'⟩).out := by
   refine ⟨{}, fun _ => 0, fun _ => 0, fun i => i, fun i => i + 1, ?_⟩; decide
+
+/-! ### history independence -/
+
+private theorem runSeq_append (pre cs : List Call) : ∀ (γ ω : Stream),
+    ∃ γ₁ ω₁, runSeq (pre ++ cs) γ ω = runSeq pre γ ω ++ runSeq cs γ₁ ω₁ ∧
+      (runSeq pre γ ω).length = pre.length := by
+  induction pre with
+  | nil => intro γ ω; exact ⟨γ, ω, rfl, rfl⟩
+  | cons c pre ih =>
+    intro γ ω
+    obtain ⟨op, a, g⟩ := c
+    obtain ⟨γ₁, ω₁, h1, h2⟩ := ih (run (prog op a) ⟨g, γ, ω⟩).world.γ (run (prog op a) ⟨g, γ, ω⟩).world.ω
+    refine ⟨γ₁, ω₁, ?_, ?_⟩
+    · simp only [List.cons_append, runSeq, h1]
+    · simp only [runSeq, List.length_cons, h2]
+
+/-- The trace, the output and the final state of the supplied generator of a claimed operation are
+a function of its arguments and of the generator handed to THIS call only -- not of the history of
+the process: whatever calls `pre` were made before (any operations, also the excluded ones that
+perturb `Γ` and consume `Ω`, with any generators -- e.g. the same object called with another seed)
+and whatever follows (`post`), the call's result inside the history is the result of the same call
+made first thing in a fresh process, in ANY state `Γ', Ω'`.  ("`obj.op(x, rng(s1))` then
+`obj.op(x, rng(s2))` equals `fresh.op(x, rng(s2))` in output, draw trace and final generator state".) -/
+theorem C18_history_independent (pre post : List Call) (op : Op) (hop : op.excluded = false)
+    (a : Args) (g γ ω γ' ω' : Stream) :
+    ∃ r, (runSeq (pre ++ (op, a, g) :: post) γ ω)[pre.length]? = some r ∧
+      r.out = (run (prog op a) ⟨g, γ', ω'⟩).out ∧
+      r.trace = (run (prog op a) ⟨g, γ', ω'⟩).trace ∧
+      r.world.g = (run (prog op a) ⟨g, γ', ω'⟩).world.g := by
+  obtain ⟨γ₁, ω₁, h1, h2⟩ := runSeq_append pre ((op, a, g) :: post) γ ω
+  refine ⟨run (prog op a) ⟨g, γ₁, ω₁⟩, ?_, ?_⟩
+  · rw [h1, List.getElem?_append_right (by omega), h2]
+    simp [runSeq]
+  · have := run_onlyG (C18_claimed_onlyG op hop a) g γ₁ γ' ω₁ ω'
+    exact ⟨this.1, this.2.1, this.2.2.1⟩
+
+/-- For every modelled operation other than the greedy cover (whose NUMBER of draws depends on the
+values drawn, see `sparseCover`) and the preparation command that may contain it, the draw trace
+is a function of the operation and its arguments alone -- the same in every world, whatever the
+supplied generator delivers: it is the driver's `trace op a`.  (For the cover the trace is a
+function of the arguments and of the supplied stream: `C18_noninterference_partial`.) -/
+theorem C18_trace_function_of_arguments (op : Op) (hop : op ≠ .sparseCover ∧ op ≠ .cliPrepareRetrospective)
+    (a : Args) (w : World) : (run (prog op a) w).trace = trace op a := by
+  obtain ⟨h1, h2⟩ := hop
+  cases op <;> first
+    | exact absurd rfl h1
+    | exact absurd rfl h2
+    | (simp only [prog, trace, trace_fromEvents]; done)
+    | rfl
+
+/-- non-vacuity: a history whose first call is the (excluded) VI training, which perturbs `Γ`,
+followed by the random scorer on two plates with a generator delivering 5, 6, …: the second call
+returns exactly the two values of ITS generator, with two G-tagged draws -/
+example : ((runSeq [(.sampleVI, {}, fun _ => 0), (.scorer, { n := 2, scorer := .random }, fun i => i + 5)]
+      (fun i => i) (fun _ => 0))[1]?).map (fun r => (r.out, r.trace))
+    = some ([5, 6], [ev .supplied .random, ev .supplied .random]) := by decide
 
 /-! ### `sampling.sample` installs this call's generator unconditionally -/
 
